@@ -139,6 +139,11 @@ func (g *Graph) Canon() error {
 	}
 	g.renumber(on.Mapping(), false)
 
+	// The root is kept first whatever it compares to, so the sort notices a
+	// duplicate of the root only if it happens to compare the two. Look for one.
+	for i := 1; i < len(on.Nodes) && !on.Dupe; i++ {
+		on.Dupe = on.Nodes[i].Compare(on.Nodes[0]) == 0
+	}
 	if on.Dupe {
 		// If there were duplicate nodes, the prior sort did not yield a
 		// canonical ordering. Perform a more expensive BFS canonicalisation.
